@@ -254,9 +254,11 @@ def nativeConv (k p s : Nat) (a b : Int) : Option (Int × Int) :=
   match k with
   | 0 => if -2147483648 ≤ a ∧ a ≤ 2147483647 then some (a, 0) else Option.none
   | 5 =>
-    -- Decimal(coefficient a, exponent b) into decimal128(p, s): exact rescale to exponent -s, at most p digits
+    -- Decimal(coefficient a, exponent b) into decimal128(p, s): the coefficient itself must fit 128 bits, the rescale to
+    -- exponent -s must be exact, the result has at most p digits
     let sc : Int := -(s : Int)
-    if b ≥ sc then
+    if a.natAbs ≥ 2 ^ 127 then Option.none
+    else if b ≥ sc then
       let a' := a * (10 : Int) ^ (b - sc).toNat
       if digitsOk p a' then some (a', sc) else Option.none
     else
@@ -266,9 +268,9 @@ def nativeConv (k p s : Nat) (a b : Int) : Option (Int × Int) :=
         if digitsOk p a' then some (a', sc) else Option.none
       else Option.none
   | _ =>
-    -- microsecond count truncated (floor) to the declared unit
+    -- microsecond count floored to the declared unit; the unit count must fit 64 bits
     let d := unitDiv p
-    if int64Ok a then some ((a / d) * d, 0) else Option.none
+    if int64Ok (a / d) then some ((a / d) * d, 0) else Option.none
 
 def concreteEnv : Env := { round32 := round32, native := nativeConv }
 
